@@ -58,6 +58,15 @@ Theorem C17_css_matrix_spec : forall g fs, meq (css_matrix exactQ g fs) (css_spe
 Proof. exact css_matrix_spec. Qed.
 Print Assumptions C17_css_matrix_spec.
 
+(* ... and with the functions as written in the style sheet (translateX, scaleY,
+   skewX, skew(a), rotate with any angle unit ...): normalisation by
+   css/validation followed by getMatrix is the product of the CSS Transforms
+   matrices *)
+Theorem C17_css_source_spec : forall tr g fs,
+  meq (css_matrix exactQ g (map (css_normalise tr) fs)) (css_src_spec tr g fs).
+Proof. exact css_source_spec. Qed.
+Print Assumptions C17_css_source_spec.
+
 (* SVG: the aggregated matrix is the left-to-right product of the SVG 1.1 matrices *)
 Theorem C17_svg_transform_spec : forall tr l, trig_ok tr ->
   meq (svg_aggregate exactQ tr l) (svg_spec tr l).
